@@ -123,3 +123,113 @@ def classify(body):
     if "unreachable" in s or "panic" in s:
         return "unreachable"
     return "other"
+
+
+# ---------------------------------------------------------------------------------------------
+# emission grammar of the agent's payload writer (load.rs)
+# ---------------------------------------------------------------------------------------------
+from vlib import xmlgrammar as X
+
+INLINE = ("policies::load::write_route_filter", "policies::load::afi_name", "::name", "::policy_stmt_elem")
+FAMILY_CASES = [
+    # (label, old, old_empty, new_empty)
+    ("old=None,new=∅", ("None",), True, True),
+    ("old=None,new≠∅", ("None",), True, False),
+    ("old=Some(∅),new=∅", ("Some", "OLD"), True, True),
+    ("old=Some(∅),new≠∅", ("Some", "OLD"), True, False),
+    ("old=Some(≠∅),new=∅", ("Some", "OLD"), False, True),
+    ("old=Some(≠∅),new≠∅", ("Some", "OLD"), False, False),
+]
+
+
+def find_thir(fx, pred, what):
+    c = [n for n in fx.thir if pred(n)]
+    if len(c) != 1:
+        raise F.AnchorLost("%s: expected one THIR body, found %d" % (what, len(c)))
+    return c[0]
+
+
+def differences_writer(fx):
+    return find_thir(fx, lambda n: n.endswith("::write_xml") and "policies::Differences<" in n and "closure" not in n and AGENT in n,
+                     "<Differences<A> as WriteXml>::write_xml")
+
+
+def update_writer(fx):
+    return find_thir(fx, lambda n: n.endswith("::write_xml") and "for " + AGENT + "::policies::Update<" in n and "closure" not in n,
+                     "<Update as WriteXml>::write_xml")
+
+
+def family_trees(fx):
+    """{(afi, case_label): (nodes | Undecided-message)}"""
+    fn = differences_writer(fx)
+    out = {}
+    for afi in ("Ipv4", "Ipv6"):
+        for (label, old, old_empty, new_empty) in FAMILY_CASES:
+            case = {"cond": {"Ranges::is_empty(self.new)": new_empty, "Ranges::is_empty(OLD)": old_empty},
+                    "opt": {"self.old": old}, "enum": {"Afi::as_afi()": afi}}
+            em = X.Emitter(fx, case, inline=INLINE)
+            try:
+                nodes, _ = em.run_fn(fn)
+                out[(afi, label)] = nodes
+            except X.Undecided as e:
+                out[(afi, label)] = "undecided: %s" % e
+    return fn, out
+
+
+def envelope_trees(fx):
+    fn = update_writer(fx)
+    out = {}
+    for var in ("Delete", "Update"):
+        case = {"cond": {}, "opt": {}, "enum": {"self": var}}
+        em = X.Emitter(fx, case, inline=INLINE)
+        try:
+            nodes, _ = em.run_fn(fn)
+            out[var] = nodes
+        except X.Undecided as e:
+            out[var] = "undecided: %s" % e
+    return fn, out
+
+
+def child(node, tag):
+    for c in node.get("children", []):
+        if c.get("tag") == tag:
+            return c
+    return None
+
+
+def text_lit(node):
+    t = node.get("text") if node else None
+    while isinstance(t, tuple) and t[0] == "text":
+        t = t[2]
+    if isinstance(t, tuple) and t[0] == "lit":
+        return t[1]
+    return None
+
+
+def has_attr(node, k, v=None):
+    for (kk, vv) in node.get("attrs", []):
+        if kk == k:
+            if v is None:
+                return True
+            val = vv[1] if isinstance(vv, tuple) else vv
+            if isinstance(val, tuple) and val[0] == "lit":
+                val = val[1]
+            return val == v
+    return False
+
+
+def required_elements(fx, reader_def):
+    """Element names a reader reports as MissingElement (i.e. requires)."""
+    t = fx.thir.get(reader_def)
+    if t is None:
+        raise F.AnchorLost("reader %s not found" % reader_def)
+    out = set()
+    for tt in [t] + [x for n, x in fx.thir.items() if n.startswith(reader_def + "::{closure")]:
+        for a in T.find(T.norm(tt["body"]), "Adt"):
+            if a["adt"].endswith(("message::error::Read", "message::ReadError")) and a["variant"] == "MissingElement":
+                for f in a["fields"]:
+                    if f["name"] == "element":
+                        lit = T.peel(f["expr"])
+                        if lit.get("k") == "Lit":
+                            out.add(lit["v"])
+    return out
